@@ -71,6 +71,30 @@ func onCurveX(x []byte) bool {
 	return new(big.Int).ModSqrt(x3, p.P) != nil
 }
 
+// p256Y: the y coordinate with the given parity of the P-256 point with this x
+func p256Y(x []byte, parity byte) *big.Int {
+	p := elliptic.P256().Params()
+	X := new(big.Int).SetBytes(x)
+	if X.Cmp(p.P) >= 0 {
+		return nil
+	}
+	x3 := new(big.Int).Mul(X, X)
+	x3.Mul(x3, X)
+	t := new(big.Int).Lsh(X, 1)
+	t.Add(t, X)
+	x3.Sub(x3, t)
+	x3.Add(x3, p.B)
+	x3.Mod(x3, p.P)
+	y := new(big.Int).ModSqrt(x3, p.P)
+	if y == nil {
+		return nil
+	}
+	if byte(y.Bit(0)) != parity {
+		y.Sub(p.P, y)
+	}
+	return y
+}
+
 func (in *Interp) pubKeyX(v Value) *Term {
 	// PublicKey value (Agg{X *big.Int, Y *big.Int}) or pointer to it
 	if p, ok := v.(Ptr); ok {
@@ -115,6 +139,47 @@ func registerCryptoModel(reg func(string, intrinsic)) {
 		return SliceV{Arr: arr, Len: 64, Cap: 64}
 	})
 
+	// nd.KeyPair(priv, pub): the harness declares that the private scalar priv
+	// (concrete bytes) belongs to the compressed public key pub. crypto.Sign with
+	// that scalar then issues a signature of that key (below).
+	reg(ndPkg+".KeyPair", func(in *Interp, fn *ssa.Function, a []Value) Value {
+		priv, ok := in.allConcrete(in.bytesOf(a[0]))
+		if !ok {
+			in.unsupported("nd.KeyPair: private key must be concrete")
+		}
+		if in.keyPairs == nil {
+			in.keyPairs = map[string][]*Term{}
+		}
+		in.keyPairs[string(priv)] = in.bytesOf(a[1])
+		return nil
+	})
+	// crypto.Sign(priv, data): under the perfect-cryptography model the holder
+	// of a declared key pair signs data: 64 fresh bytes registered as that
+	// key's signature over exactly that data (no replay draw: natively the real
+	// function signs).
+	reg(cryptoPkg+".Sign", func(in *Interp, fn *ssa.Function, a []Value) Value {
+		priv, ok := in.allConcrete(in.bytesOf(a[0]))
+		if !ok {
+			in.unsupported("crypto.Sign: symbolic private key")
+		}
+		pub, known := in.keyPairs[string(priv)]
+		if !known {
+			in.unsupported("crypto.Sign: private key not declared with nd.KeyPair")
+		}
+		data := in.bytesOf(a[1])
+		arr := in.newArrayLoc(types.Typ[types.Uint8], 64)
+		var vars []*Term
+		for i := 0; i < 64; i++ {
+			v := in.st.Var(fmt.Sprintf("wsig!%d_%d", in.drawSeq, i), BV(8))
+			arr.Kids[i].V = v
+			vars = append(vars, v)
+		}
+		in.drawSeq++
+		in.sigFacts = append(in.sigFacts, sigFact{sig: vars, key: pub, data: data, kind: "ecdsa"})
+		in.ex.noteStub("signatures: crypto.Sign with a key pair declared by nd.KeyPair issues a signature of that key over exactly the data (perfect-cryptography model)")
+		return Tuple{SliceV{Arr: arr, Len: 64, Cap: 64}, IfaceV{}}
+	})
+
 	reg(cryptoPkg+".DecodePoint", func(in *Interp, fn *ssa.Function, a []Value) Value {
 		bs := in.bytesOf(a[0])
 		st := in.st
@@ -136,6 +201,13 @@ func registerCryptoModel(reg func(string, intrinsic)) {
 				on := st.UF("P256_has_point", SBool, x...)
 				if !in.fork2(on) {
 					return fail("invalid point")
+				}
+			}
+			// a concrete compressed key: the real point (so that re-encoding it
+			// gives back the same bytes, parity included)
+			if call, ok := in.allConcrete(bs); ok {
+				if yv := p256Y(call[1:33], call[0]&1); yv != nil {
+					return Tuple{in.newPublicKey(in.bytesToInt(x), st.IntConst(yv)), IfaceV{}}
 				}
 			}
 			y := st.UF("P256_y", SInt, bs...)
